@@ -24,7 +24,7 @@ PROFILES = ("always_mask", "mask_if_missing")
 
 
 def tlc_jobs(tier, seed):
-    return [dict(tag=tier, module="MC_C20", cfg=dict(constants=dict(Emit=True), invariants=["Sane"]), run=dict(timeout=3000))]
+    return [dict(tag=tier, module="MC_C20", cfg=dict(constants=dict(Emit=True, Deep=(tier != "quick")), invariants=["Sane"]), run=dict(timeout=3000))]
 
 
 def classify(scn):
